@@ -46,6 +46,7 @@ const (
 	c01PRed   = 35
 	c01PCmp   = 40
 	c01PArith = 42
+	c01PMul   = 43
 	c01PAtom  = 100
 )
 
@@ -60,7 +61,10 @@ func c01OpPrec(op string) int {
 	case "==", "!=", "<", ">", "<=", ">=":
 		return c01PCmp
 	}
-	return c01PArith // + - * //
+	if op == "*" {
+		return c01PMul
+	}
+	return c01PArith // + - //
 }
 
 func c01Assoc(op string) bool {
